@@ -286,6 +286,7 @@ def run(ctx):
            'if g.titratable' in norm(gt),
            'get_titratable_groups filters on the titratable flag', cc, gt)
 
+    common.check_ph_label_precision(ctx, 'C09.R2', prog, ['get_charge_profile_section'])
     # ------------------------------------------------------------------ R4
     if inner is not None:
         ps = [a.arg for a in inner.args.args]
